@@ -1,6 +1,7 @@
 /- The division branch of mpf_set_str's conversion (convDiv): the quotient has exactly prec+1 limbs (plus
    possibly a leading 1), and its value is within the stated factors of mantissa / base^e. -/
 import MpirProofs.Lemmas.MpfStrConv
+import Mathlib.Data.Nat.Cast.Field
 namespace Mpir.MpfStr
 open Mpir Mpir.Mpf
 
@@ -100,7 +101,9 @@ theorem convDiv_spec (prec : ℕ) (neg : Bool) (M b e : ℕ) (hM : M ≠ 0) (hb 
     WF (convDiv prec neg M b e) ∧
     ∃ R : ℚ, toQ (convDiv prec neg M b e) = sgn neg * R ∧
       (M : ℚ) / (b : ℚ) ^ e * (1 - epsP (prec + 1)) ^ 3 ≤ R ∧
-      R * (1 - epsP (prec + 1)) ^ e ≤ (M : ℚ) / (b : ℚ) ^ e := by
+      R * (1 - epsP (prec + 1)) ^ e ≤ (M : ℚ) / (b : ℚ) ^ e ∧
+      (1 ≤ prec → FitsN M (64 * (prec - 1)) → FitsN (b ^ e) (64 * (prec - 1)) →
+        Fits ((M : ℚ) / (b : ℚ) ^ e) (64 * (prec - 1)) → R = (M : ℚ) / (b : ℚ) ^ e) := by
   have hP : 1 ≤ prec + 1 := by omega
   have h0 := epsP_nonneg (prec + 1)
   have h1 := epsP_le_one (prec + 1)
@@ -221,7 +224,7 @@ theorem convDiv_spec (prec : ℕ) (neg : Bool) (M b e : ℕ) (hM : M ≠ 0) (hb 
     have hbe : (0 : ℚ) < (b : ℚ) ^ e := pow_pos (by exact_mod_cast hb) _
     have hMq : (0 : ℚ) ≤ (M : ℚ) := Nat.cast_nonneg _
     have hε : 0 ≤ 1 - epsP (prec + 1) := by linarith
-    constructor
+    refine ⟨?_, ?_, ?_⟩
     · -- M/b^e (1-ε)^3 ≤ N'/D' (1-ε)^2 ≤ R
       refine le_trans ?_ a3.1
       have s1 : (M : ℚ) * (1 - epsP (prec + 1)) ^ 1 ≤ N' := am.1
@@ -242,5 +245,49 @@ theorem convDiv_spec (prec : ℕ) (neg : Bool) (M b e : ℕ) (hM : M ≠ 0) (hb 
       rw [div_mul_eq_mul_div, div_le_div_iff₀ hDpos hbe]
       calc N' * (1 - epsP (prec + 1)) ^ e * (b : ℚ) ^ e = N' * ((b : ℚ) ^ e * (1 - epsP (prec + 1)) ^ e) := by ring
         _ ≤ (M : ℚ) * D' := mul_le_mul s2 s3 (mul_nonneg hbe.le s0) hMq
+    · -- exactness: nothing but zero limbs is dropped and the division leaves no remainder
+      intro hp fM fb fv
+      have xm : km.1 * B ^ km.2 = M := keepTop_exact prec hp hM fM
+      have xp : pw.1 * B ^ pw.2 = b ^ e := powHigh_exact_of_fits b prec e hp hb he fb
+      have hN' : N' = (M : ℚ) := by rw [hN]; exact_mod_cast xm
+      have hD' : D' = (b : ℚ) ^ e := by rw [hD]; exact_mod_cast xp
+      have hXz' : X * z = (M : ℚ) / (b : ℚ) ^ e := by rw [hXz, hN', hD']
+      -- r2 divides m2 B^qxn
+      have hfit1 : Fits (1 * (((m2 * B ^ qxn : ℕ) : ℚ) / (r2 : ℚ)) *
+          (B : ℚ) ^ ((km.2 : ℤ) - (pw.2 : ℤ) - (qxn : ℤ) - (pad : ℤ))) (64 * (prec - 1)) := by
+        have : (1 : ℚ) * (((m2 * B ^ qxn : ℕ) : ℚ) / (r2 : ℚ)) *
+            (B : ℚ) ^ ((km.2 : ℤ) - (pw.2 : ℤ) - (qxn : ℤ) - (pad : ℤ)) = (M : ℚ) / (b : ℚ) ^ e := by
+          rw [← hXz', hX, hz]; push_cast; ring
+        rw [this]; exact fv
+      have h2p : 2 ^ (64 * (prec - 1)) ≤ m2 * B ^ qxn / r2 := by
+        calc 2 ^ (64 * (prec - 1)) = B ^ (prec - 1) := (B_pow' _).symm
+          _ ≤ B ^ prec := Nat.pow_le_pow_right B_pos (by omega)
+          _ ≤ Q := c3
+      have hdvd : r2 ∣ m2 * B ^ qxn := dvd_of_fits_quot (Or.inl rfl) _ _ c5 _ _ h2p hfit1
+      have hQX : (Q : ℚ) = X := by
+        rw [hX]
+        have : ((m2 * B ^ qxn / r2 : ℕ) : ℚ) = ((m2 * B ^ qxn : ℕ) : ℚ) / (r2 : ℚ) :=
+          Nat.cast_div hdvd (by exact_mod_cast c5.ne')
+        rw [show (Q : ℚ) = ((m2 * B ^ qxn / r2 : ℕ) : ℚ) from rfl, this]; push_cast; ring
+      -- B^qlimb divides Q
+      have hfQ : FitsN Q (64 * (prec - 1)) := by
+        apply fitsN_of_fits (Or.inl rfl) Q ((km.2 : ℤ) - (pw.2 : ℤ) - (qxn : ℤ) - (pad : ℤ))
+        have : (1 : ℚ) * (Q : ℚ) * (B : ℚ) ^ ((km.2 : ℤ) - (pw.2 : ℤ) - (qxn : ℤ) - (pad : ℤ)) = (M : ℚ) / (b : ℚ) ^ e := by
+          rw [hQX, ← hXz', hz]; ring
+        rw [this]; exact fv
+      have hBq : B ^ qlimb ∣ Q := by
+        by_cases hq : qlimb = 0
+        · rw [hq]; simp
+        · have hq1 : qlimb = 1 := Nat.le_antisymm hql (Nat.one_le_iff_ne_zero.mpr hq)
+          have hge : B ^ (prec + 1) ≤ Q := by
+            by_contra hc
+            have h' : Q / B ^ (prec + 1) = 0 := Nat.div_eq_of_lt (Nat.lt_of_not_le hc)
+            exact hq h'
+          have := fitsN_dvd (n := prec + 2) hfQ (by simpa using hge) hp
+          rw [hq1, pow_one]
+          exact Dvd.dvd.trans (dvd_pow_self B (by omega)) this
+      have hQ2Q : Q2 * B ^ qlimb = Q := floor_exact (Bpow_pos _) q3 q4 hBq
+      have : (Q2 : ℚ) * (B : ℚ) ^ qlimb = (Q : ℚ) := by exact_mod_cast hQ2Q
+      rw [this, hQX, hXz']
 
 end Mpir.MpfStr
